@@ -9,7 +9,7 @@ CONSTANTS
   IcGrow = 1
   IcCap = 2
   IcU16 = 3
-  IcMaxCount = 4
+  IcMaxCount = 3
   IcSlackMax = 0
   IcModes = {0, 1, 2}
   IcMaxN = 2
@@ -17,7 +17,7 @@ CONSTANTS
   DbGrow = 1
   DbGrowThresh = 2
   DbInos = {1, 2}
-  DbBlks = {<<0, 0>>, <<1, 0>>}
+  DbBlks = {0, 8}
   DbCnts = {0, 1}
   DbInitSizes = {1}
   DbMaxLen = 3
